@@ -26,6 +26,8 @@ def lattice_for(rng):
     orientation, or a rational (3,4,5) rotation — the last two are not exactly representable, the
     model then receives the exact rational value of the float matrix the implementation holds"""
     name, m = gem.lattice_pool(rng)
+    if rng.random() < 0.1:
+        name, m = 'tric-80-75-115', Lattice.from_parameters(6.5, 7, 8, 80, 75, 115).matrix.copy()
     r = rng.random()
     if r < 0.25:
         m = gem.exact_orientation(rng, m)
@@ -173,10 +175,24 @@ def check_case(out: Outcome, case, tag):
     if (nin > 1).any():
         out.count('overlapping-spheres-case')
         return
-    # MDAnalysis' periodic KD-tree assumes a reduced triclinic box (GROMACS convention); see known finding D16
+    # known finding D16: MDAnalysis' PeriodicKDTree itself misses some in-range pairs on general triclinic boxes
+    # (reproduced below with MDAnalysis primitives only, independent of gemdat)
+    from MDAnalysis.lib.distances import distance_array
     from MDAnalysis.lib.mdamath import triclinic_vectors
-    bm = triclinic_vectors(np.array(Lattice(lat).parameters, dtype=np.float32)).astype(float)
-    reduced = (abs(bm[1, 0]) <= 0.5 * bm[0, 0] + 1e-6 and abs(bm[2, 0]) <= 0.5 * bm[0, 0] + 1e-6 and abs(bm[2, 1]) <= 0.5 * bm[1, 1] + 1e-6)
+    from MDAnalysis.lib.pkdtree import PeriodicKDTree
+    box32 = np.array(Lattice(lat).parameters, dtype=np.float32)
+    bm = triclinic_vectors(box32)
+
+    def kdtree_misses(point_idx, site_idx, radius):
+        """the third-party tree finds no pair although the brute-force minimum image is within the radius"""
+        pc = (pos[point_idx] @ bm)[None, :].astype(np.float32)
+        sc_ = (sites[site_idx] @ bm)[None, :].astype(np.float32)
+        tree = PeriodicKDTree(box=box32)
+        tree.set_coords(pc, cutoff=max(per_site))
+        found = len(tree.search_tree(sc_, radius)) > 0
+        brute = float(distance_array(pc, sc_, box=box32)[0, 0]) < radius
+        return brute and not found
+
     ok_o = (states == mo) | und_pts
     ok_i = (inner == mi) | und_pts
     through_image = bool(np.any(np.floor(np.array(case['coords'])) != 0))
@@ -187,11 +203,13 @@ def check_case(out: Outcome, case, tag):
         out.fail('property', 'site-of-minimum-image-distance', case,
                  expected={'site': int(mo[t, a]), 'frame': int(t), 'atom': int(a), 'distances_to_sites': np.round(d[:, k], 4).tolist(), 'radii': per_site},
                  observed=int(states[t, a]),
-                 note='non-reduced-cell-missed-neighbour' if (not reduced and states[t, a] == -1) else '')
+                 note='third-party-kdtree-misses-pair' if (states[t, a] == -1 and mo[t, a] >= 0
+                                                          and kdtree_misses(k, int(mo[t, a]), per_site[int(mo[t, a])])) else '')
     if not ok_i.all():
         t, a = np.argwhere(~ok_i)[0]
         out.fail('property', 'inner-site-of-scaled-radius', case, expected={'site': int(mi[t, a]), 'frame': int(t), 'atom': int(a)}, observed=int(inner[t, a]),
-                 note='non-reduced-cell-missed-neighbour' if (not reduced and inner[t, a] == -1) else '')
+                 note='third-party-kdtree-misses-pair' if (inner[t, a] == -1 and mi[t, a] >= 0
+                                                          and kdtree_misses(int(t) * A + int(a), int(mi[t, a]), per_site[int(mi[t, a])] * fr)) else '')
     # inner site is none or the outer site
     bad = (inner != -1) & (inner != states)
     if bad.any():
@@ -260,7 +278,7 @@ def run(tier: str, seed: int, scale: int) -> Outcome:
 
 def classify(f: core.Failure, finding: dict) -> bool:
     if finding['id'] == 'D16':
-        return f.clause in ('site-of-minimum-image-distance', 'inner-site-of-scaled-radius') and f.note == 'non-reduced-cell-missed-neighbour'
+        return f.clause in ('site-of-minimum-image-distance', 'inner-site-of-scaled-radius') and f.note == 'third-party-kdtree-misses-pair'
     return False
 
 
